@@ -37,9 +37,14 @@ func (s *ConcurrencyStatSlot) Order() uint32 {
 	return StatSlotOrder
 }
 
+// countedKey is the (private) key under which OnEntryPassed keeps, in the context of the entry,
+// the counters it has incremented for this entry.
+type countedKey struct{}
+
 func (c *ConcurrencyStatSlot) OnEntryPassed(ctx *base.EntryContext) {
 	res := ctx.Resource.Name()
 	tcs := getTrafficControllersFor(res)
+	var counted []*int64
 	for _, tc := range tcs {
 		if tc.BoundRule().MetricType != Concurrency {
 			continue
@@ -57,6 +62,15 @@ func (c *ConcurrencyStatSlot) OnEntryPassed(ctx *base.EntryContext) {
 			continue
 		}
 		atomic.AddInt64(concurrencyPtr, 1)
+		counted = append(counted, concurrencyPtr)
+	}
+	if len(counted) > 0 {
+		// Remember exactly the units this entry occupies: the rules (and with them the counters) may
+		// be replaced, or the arguments re-read differently, before the entry is exited.
+		if ctx.Data == nil {
+			ctx.Data = make(map[interface{}]interface{})
+		}
+		ctx.Data[countedKey{}] = counted
 	}
 }
 
@@ -65,24 +79,17 @@ func (c *ConcurrencyStatSlot) OnEntryBlocked(ctx *base.EntryContext, blockError 
 }
 
 func (c *ConcurrencyStatSlot) OnCompleted(ctx *base.EntryContext) {
-	res := ctx.Resource.Name()
-	tcs := getTrafficControllersFor(res)
-	for _, tc := range tcs {
-		if tc.BoundRule().MetricType != Concurrency {
-			continue
-		}
-		arg := tc.ExtractArgs(ctx)
-		if arg == nil {
-			continue
-		}
-		metric := tc.BoundMetric()
-		concurrencyPtr, existed := metric.ConcurrencyCounter.Get(arg)
-		if !existed || concurrencyPtr == nil {
-			if logging.DebugEnabled() {
-				logging.Debug("[ConcurrencyStatSlot OnCompleted] Parameter does not exist in ConcurrencyCounter.", "argument", arg)
-			}
-			continue
-		}
+	// Release the units that were occupied when the entry passed - those and nothing else:
+	// looking the controllers up again here would release a unit of whatever rule is loaded NOW.
+	if ctx.Data == nil {
+		return
+	}
+	counted, ok := ctx.Data[countedKey{}].([]*int64)
+	if !ok {
+		return
+	}
+	delete(ctx.Data, countedKey{})
+	for _, concurrencyPtr := range counted {
 		atomic.AddInt64(concurrencyPtr, -1)
 	}
 }
